@@ -70,6 +70,14 @@ func judge(c Case) *pbt.Verdict {
 	if base.Panic != "" || got.Panic != "" {
 		return v.Failf("panic: base=%q paused=%q", base.Panic, got.Panic)
 	}
+	if base.Skip || got.Skip {
+		v.Skip = true
+		return v
+	}
+	if p.Ref.PathLoadedTwice() && run.Known("C02-path-loaded-twice-then-resume") {
+		v.Excluded = "C02-path-loaded-twice-then-resume"
+		return v
+	}
 	// known finding C02-K2 (skip count units): a request that went out with a skip count k while the two
 	// sides' traversals differ within their first k loads is outside what this check judges
 	if run.Known("C02-K2-skipcount-units") {
